@@ -727,6 +727,11 @@ def combAdd (c : CombineCfg) (s : CombSt) (p : BPoint) : CombSt × List Point :=
     | none => ({ s with dead := true }, [])
     | some out => ({ s with time := some t, points := [p'] }, out)
 
+/-- Snapshot ef0888e started a new bucket with `b.points = b.points[0:1]; b.points[0] = p`, which needs capacity ≥ 1:
+`bucketTime` is b.time, `cap` the capacity of b.points, `t` the time of the arriving point. True = the process panics. -/
+def combAddOldPanics (tol : Int) (bucketTime : Option Int) (cap : Nat) (t : Int) : Bool :=
+  decide (bucketTime ≠ some (roundTo t tol)) && cap == 0
+
 def combInit (p : Point) : CombSt := { time := some p.time, name := p.name, dims := p.dims, byName := p.byName }
 def combStep (c : CombineCfg) (s : CombSt) (p : Point) : CombSt × List Point := combAdd c s (BPoint.ofPoint p)
 
